@@ -314,9 +314,9 @@ type stallPeer struct {
 	local bool
 }
 
-func (p *stallPeer) IsLocal() bool              { return p.local }
-func (p *stallPeer) Send() chan<- wamp.Message  { return p.out }
-func (p *stallPeer) Close()                     { close(p.out) }
+func (p *stallPeer) IsLocal() bool             { return p.local }
+func (p *stallPeer) Send() chan<- wamp.Message { return p.out }
+func (p *stallPeer) Close()                    { close(p.out) }
 func (p *stallPeer) forward(open <-chan struct{}) {
 	<-open
 	for m := range p.out {
@@ -779,6 +779,14 @@ func (w *world) oracleFor(o *Obs, authid string, rcfg *RealmCfg, blocked bool) {
 			}
 		}
 	}
+	if _, has := or["sid"]; !has && o.SIDFromList != 0 {
+		or["sid"] = o.SIDFromList
+		if a, ok := o.Got["authid"].(string); ok {
+			if n, err := strconv.ParseUint(a, 16, 64); err == nil && strconv.FormatUint(n, 16) == a {
+				or["authidRand"] = n
+			}
+		}
+	}
 	or["keyNonce"] = "?unknown-random-key?"
 	or["keyNow"] = "?"
 	if blocked && chMethod == "" {
@@ -997,13 +1005,30 @@ func (w *world) runHandshake(hs *HS, created map[string]bool) Obs {
 			}
 		}
 	}
+	// attachReturned polls AttachClient's result: once it has returned the handshake is over,
+	// also when no WELCOME arrives (the handler drops it when the client's queue is full).
+	attachReturned := func() bool {
+		if o.Returned {
+			return true
+		}
+		select {
+		case err := <-attachDone:
+			o.Returned = true
+			if err != nil {
+				o.AttachErr = err.Error()
+			}
+			return true
+		default:
+			return false
+		}
+	}
 	o.RespKinds = make([]string, len(hs.Arrivals))
 	for i, a := range hs.Arrivals {
 		if i > 0 {
 			// wait for the router's reaction to the previous action
 			synctest.Wait()
 		}
-		if _, fin := cs.snapshot(); fin {
+		if _, fin := cs.snapshot(); fin || attachReturned() {
 			break
 		}
 		if hs.Blocked && i == 1 {
@@ -1011,7 +1036,7 @@ func (w *world) runHandshake(hs *HS, created map[string]bool) Obs {
 			close(open)
 			open = nil
 			synctest.Wait()
-			if _, fin := cs.snapshot(); fin {
+			if _, fin := cs.snapshot(); fin || attachReturned() {
 				break
 			}
 		}
@@ -1022,7 +1047,7 @@ func (w *world) runHandshake(hs *HS, created map[string]bool) Obs {
 			w.r.RemoveRealm(wamp.URI(realm))
 		}
 		time.Sleep(time.Duration(a.D) * time.Millisecond)
-		if _, fin := cs.snapshot(); fin {
+		if _, fin := cs.snapshot(); fin || attachReturned() {
 			break
 		}
 		concrete := Arrival{D: a.D, M: a.M}
@@ -1072,23 +1097,29 @@ func (w *world) runHandshake(hs *HS, created map[string]bool) Obs {
 	}
 	// silence until the router gives up
 	if open != nil && hs.Blocked {
+		// let the router meet the full queue first (non-blocking CHALLENGE / WELCOME), then open it
+		synctest.Wait()
 		close(open)
 	}
-	select {
-	case err := <-attachDone:
-		o.Returned = true
-		if err != nil {
-			o.AttachErr = err.Error()
+	if !attachReturned() {
+		select {
+		case err := <-attachDone:
+			o.Returned = true
+			if err != nil {
+				o.AttachErr = err.Error()
+			}
+		case <-time.After(10 * time.Minute):
+			o.Note += "AttachClient did not return within 10 virtual minutes; "
 		}
-	case <-time.After(10 * time.Minute):
-		o.Note += "AttachClient did not return within 10 virtual minutes; "
 	}
 	synctest.Wait()
 	cs.mu.Lock()
 	o.Sent = append([][]any{}, cs.sent...)
 	o.Closed = cs.closed
 	cs.mu.Unlock()
-	welcomed := false
+	// attached: AttachClient reported success. WELCOME is sent by the session's handler without
+	// blocking, so a client whose queue is full is attached without ever seeing it.
+	welcomed := o.Returned && o.AttachErr == ""
 	var sid uint64
 	for _, s := range o.Sent {
 		if s[0] == "welcome" {
@@ -1143,6 +1174,10 @@ func (w *world) runHandshake(hs *HS, created map[string]bool) Obs {
 						o.NewSessions = append(o.NewSessions, id)
 					}
 				}
+			}
+			if welcomed && sid == 0 && len(o.NewSessions) == 1 {
+				sid = o.NewSessions[0] // WELCOME was dropped: the id is known from the session list
+				o.SIDFromList = sid
 			}
 			if welcomed {
 				switch r := obs.call(string(wamp.MetaProcSessionGet), wamp.List{wamp.ID(sid)}).(type) {
